@@ -286,6 +286,7 @@ def check_one(job):
 
 def main(tier, write_baseline=False):
     run = Run("C14", tier, "other", checker_cmd=common.checker_cmd("C14", tier))
+    run.confirm_abstracted = ('_set_param_values', 'optional-iff-not-required')  # refutations of these exact contracts count only with an input that fails on the real code (report.Run.violation)
     run.trusted_base.update(["cddvc E1 (string VCs; str.lstrip(chars) specified as a suffix not starting with chars)", "z3 5.1"])
     refuted = e1.run_contracts(run, "contracts.C14")
     if write_baseline:
